@@ -80,7 +80,7 @@ func (s *h) Setup() {
 		if !op.Kind.IsWrite() {
 			return nil
 		}
-		t.Point(&vsched.Op{Kind: fmt.Sprintf("fs.%v", op.Kind)})
+		t.EnvPoint(fmt.Sprintf("fs.%v", op.Kind))
 		if s.sc.errs && s.injected == 0 {
 			switch op.Kind {
 			case errorfs.OpCreate, errorfs.OpFileWrite, errorfs.OpFileSync, errorfs.OpFileSyncData, errorfs.OpFileSyncTo:
